@@ -25,6 +25,8 @@ Next == /\ Depth(t) < MaxDepth
         /\ \/ t' = ListOf(t)
            \/ t' = SetOf(t) \/ t' = [k |-> "set", e |-> t, slice |-> TRUE]
            \/ \E p \in Partners : t' = MapOf(t, p) \/ t' = MapOf(p, t)
+           \* a map that carries the annotation sets use to become slices: it stays a map, for the generator and for plugins
+           \/ \E p \in {B("string"), B("i32")} : t' = [k |-> "map", kt |-> p, vt |-> t, slice |-> TRUE]
 Spec == Init /\ [][Next]_t
 FaithfulInv == \A req \in BOOLEAN : Faithful(XSupport, t, req)
 \* Role B: the reachable type expressions are the parameter / return types of the generated services
